@@ -49,6 +49,8 @@ REGISTRY = {
     "Rooms_redundant": ("top", lambda: Rooms(allow_redundant_border=True)),
     "ValuedRooms": ("top", lambda: ValuedRooms(OneOf(HexInt(), Spaces(-1, "g")))),
     "ValuedRooms_hex": ("top", lambda: ValuedRooms(HexInt())),
+    "Tupl_Hex_VRooms": ("top", lambda: Tupl(HexInt(), FixStr("/"), ValuedRooms(HexInt()))),
+    "Tupl_Hex_Rooms": ("top", lambda: Tupl(Seq(HexInt(), 1), Rooms())),
     "nurikabe": ("top", lambda: _puzzle("nurikabe", "NURIKABE_COMBINATOR")),
     "masyu": ("top", lambda: _puzzle("masyu", "MASYU_COMBINATOR")),
     "slitherlink": ("top", lambda: _puzzle("slitherlink", "SLITHERLINK_COMBINATOR")),
@@ -278,6 +280,7 @@ def h_value_grid(c0: int, c1: int, c2: int, c3: int, c4: int, c5: int) -> bool:
     cells = [c0, c1, c2, c3, c4, c5][:H * W]
     value = [cells[i * W:(i + 1) * W] for i in range(H)]
     env = _env()
+    _prior_call()
     r = COMB.serialize(env, [value], 0)
     if r is None:
         return True
